@@ -9,14 +9,29 @@ Import PktCls.
 Local Open Scope N_scope.
 
 (** [eval] (the code's loops and tests) computes the value of the expression
-    [sem]: all = conjunction, any = disjunction (any() = all() = true), not =
-    negation, nets = prefix membership as arithmetic, dscp = tos / 4, port
-    ranges inclusive — on every layer (nil / non-IPv4 layers included). *)
-Theorem C43_eval : forall e v,
-  wf_cond e = true -> wf_layer v = true -> eval e v = sem e v.
+    [sem]: all = conjunction, any = disjunction, not = negation, nets = prefix
+    membership as arithmetic, dscp = tos / 4, port ranges inclusive — on every
+    layer (nil / non-IPv4 layers included) — for every tree without an empty
+    [any].  The code gives any() = true where the empty disjunction is false:
+    known finding empty-any-true (reachable through the Go API and the JSON form,
+    not through the text grammar). *)
+Theorem C43_eval_except_known : forall e v,
+  has_empty_any e = false -> wf_cond e = true -> wf_layer v = true -> eval e v = sem e v.
 Proof. exact eval_sem. Qed.
-Print Assumptions C43_eval.
+Print Assumptions C43_eval_except_known.
 
+Theorem C43_empty_any_refuted :
+  exists e v, wf_cond e = true /\ wf_layer v = true /\ eval e v = true /\ sem e v = false.
+Proof. exists (CAny []), None. repeat split; reflexivity. Qed.
+Print Assumptions C43_empty_any_refuted.
+
+(** the same at the level of the oracle used by [check] *)
+Theorem C43_oracle_tree_refuted :
+  exists e ps, let '(_, ev, re) := tree_model e ps in tree_oracle e ps ev re = false.
+Proof. exists (CAll [CBool true; CAny []]), [None]. vm_compute. reflexivity. Qed.
+Print Assumptions C43_oracle_tree_refuted.
+
+(** what the code computes for the connectives (the last conjunct is the finding) *)
 Theorem C43_truth_table : forall l c v,
   eval (CAll l) v = forallb (fun x => eval x v) l /\
   eval (CAny l) v = match l with [] => true | _ => existsb (fun x => eval x v) l end /\
@@ -43,6 +58,36 @@ Proof.
   - intros [H1 H2]. symmetry. apply N.div_unique with (r := p_src p - ip / size * size); lia.
 Qed.
 Print Assumptions C43_net_membership.
+
+Theorem C43_dst_membership : forall ip len p,
+  ip < 4294967296 -> len <= 32 -> p_dst p < 4294967296 ->
+  let size := 2 ^ (32 - len) in let base := ip / size * size in
+  eval (CDst ip len) (Some p) = true <-> base <= p_dst p < base + size.
+Proof.
+  intros ip len p Hi Hl Hp size base. cbn [eval].
+  rewrite contains_div by assumption. fold size. rewrite N.eqb_eq.
+  assert (Hs : size <> 0) by (apply N.pow_nonzero; lia).
+  unfold base. split.
+  - intros E. rewrite <- E.
+    pose proof (N.mul_div_le (p_dst p) size Hs). pose proof (N.mul_succ_div_gt (p_dst p) size Hs). lia.
+  - intros [H1 H2]. symmetry. apply N.div_unique with (r := p_dst p - ip / size * size); lia.
+Qed.
+Print Assumptions C43_dst_membership.
+
+(** the remaining IPv4 leaves: DSCP is the upper six bits of TOS, TOS and protocol
+    are compared as they are; on a nil or non-IPv4 layer every leaf is false *)
+Theorem C43_leaves : forall d t n p,
+  (eval (CDscp d) (Some p) = true <-> p_tos p / 4 = d) /\
+  (eval (CTos t) (Some p) = true <-> p_tos p = t) /\
+  (eval (CProto n) (Some p) = true <-> p_proto p = n) /\
+  eval (CDscp d) None = false /\ eval (CTos t) None = false /\ eval (CProto n) None = false /\
+  (forall ip len, eval (CSrc ip len) None = false /\ eval (CDst ip len) None = false) /\
+  (forall lo hi, eval (CSrcPort lo hi) None = false /\ eval (CDstPort lo hi) None = false).
+Proof.
+  intros d t n p. cbn [eval]. rewrite N.shiftr_div_pow2. change (2 ^ 2) with 4.
+  rewrite !N.eqb_eq. repeat split; intros; try reflexivity; congruence.
+Qed.
+Print Assumptions C43_leaves.
 
 Theorem C43_ports_inclusive : forall lo hi p,
   (eval (CSrcPort lo hi) (Some p) = true <->
@@ -85,11 +130,11 @@ Qed.
 Print Assumptions C43_parsed_roundtrip.
 
 (** the oracles evaluated on the implementation's observations hold on the model *)
-Theorem C43_oracle_holds_on_model_tree : forall e ps,
-  wf_cond e = true -> forallb wf_layer ps = true ->
+Theorem C43_oracle_holds_on_model_tree_except_known : forall e ps,
+  has_empty_any e = false -> wf_cond e = true -> forallb wf_layer ps = true ->
   let '(_, ev, re) := tree_model e ps in tree_oracle e ps ev re = true.
 Proof. exact tree_oracle_model. Qed.
-Print Assumptions C43_oracle_holds_on_model_tree.
+Print Assumptions C43_oracle_holds_on_model_tree_except_known.
 
 Theorem C43_oracle_holds_on_model_text : forall s ps,
   let '(impl, re) := text_model s ps in text_oracle impl re = true.
